@@ -1616,8 +1616,27 @@ class SymTerms(Terms):
 
     def local(self, l, depth=0):
         if l > self.fn.arg_count and self.fn.locals[l].get("name"):
+            # (the parameter of a spliced-in helper is bound once, to the argument: it stands for that argument, not for a variable)
+            if self.fn.locals[l].get("inl") and len([d for d in self.fn.defs().get(l, []) if d[2]["k"] != "partial"]) == 1 and \
+                    self.fn.defs()[l][0][2]["k"] == "use" and self.fn.blocks[self.fn.defs()[l][0][0]].get("inl") and \
+                    self.fn.blocks[self.fn.defs()[l][0][0]]["term"]["k"] == "goto" and not any(s_["k"] != "assign" for s_ in self.fn.blocks[self.fn.defs()[l][0][0]]["stmts"]) and \
+                    self._is_bind_block(self.fn.defs()[l][0][0]):
+                return Terms.local(self, l, depth)
+            # (a pattern binding -- `Some(&c) => ..`, `let (a, b) = pair` -- names a part of another value: it stands for that part)
+            ds = [d for d in self.fn.defs().get(l, []) if d[2]["k"] != "partial"]
+            if len(ds) == 1 and ((ds[0][2]["k"] == "use" and ds[0][2]["op"]["k"] in ("copy", "move") and ds[0][2]["op"]["p"]["proj"]) or
+                                 (ds[0][2]["k"] == "ref" and ds[0][2]["p"]["proj"])):
+                src_l = ds[0][2]["op"]["p"]["l"] if ds[0][2]["k"] == "use" else ds[0][2]["p"]["l"]
+                # (`x = a - b` is computed into a (value, overflowed) pair first: that is arithmetic, not a binding)
+                if not any(d2[2]["k"] == "bin" for d2 in self.fn.defs().get(src_l, [])):
+                    return Terms.local(self, l, depth)
             return ("var", l, self.fn.locals[l]["name"])
         return Terms.local(self, l, depth)
+
+    def _is_bind_block(self, bb):
+        """the block that binds a spliced-in helper's parameters: only plain assignments of the call's arguments"""
+        b = self.fn.blocks[bb]
+        return bool(b.get("inl")) and all(s_["k"] == "assign" and s_["r"]["k"] == "use" and not s_["p"]["proj"] for s_ in b["stmts"]) and bool(b["stmts"])
 
 
 if __name__ == "__main__":
